@@ -31,6 +31,8 @@ LookupOK(ts, q, r) ==
                        THEN r[1].sc >= Sc(t)
                        ELSE r[1].sc = Sc(t) + (q[2] - Dc(t))
                   ELSE r[1].sc = Sc(t)
+               \* every accessor of the returned token reports the same original position
+               /\ ("src" \in DOMAIN r[1] => r[1].src = <<r[1].sl, r[1].sc>> /\ r[1].tuple = <<r[1].sl, r[1].sc>>)
 
 \* the algorithm of the code, abstractly: a binary search that may land on ANY index holding
 \* the key, then a walk back to the first one; or the insertion index when the key is absent
